@@ -1005,9 +1005,9 @@ func writeEvidence(cfg checkCfg, seed uint64, st *Stats, batches int, wall float
 var checkConfigs = map[string]checkCfg{
 	"C02": {
 		prop: "C02", engine: "faultsweep", level: "fault_enumeration", checksPerBatch: 1, minBatches: 1, exhaustive: true,
-		rule: "the grid (built-in function discovered on a fresh global object, call or construct) x (one varying position among receiver / argument 1 / argument 2) x 40 value kinds (numeric extremes, hostile strings, wrappers, frozen/sparse/array-like/prototype-less objects, arguments, bound functions, regexps with negative lastIndex, trap objects and trap functions whose valueOf/toString/toJSON/getters/body count invocations) x faults {none, throw at the 1st/2nd/3rd trap invocation, host-function panic, interrupt panic at the 1st/2nd trap invocation, stack depth limit 3..6} is enumerated completely (quick adds all kind pairs for a seed-selected sixteenth of the surface, thorough for all of it), plus: every own/inherited property of an instance of each kind read/described/written/deleted (also through an inheriting object), uncaught throws and the Value/Object accessors on a value of each kind under every fault, all 3-step histories over 20 array/object operations, 41 self-recursive programs under limits 2..200, and two allocation probes in memory-capped children; evaluations = cells executed. distinct_nontrivial = number of built-in functions whose whole slice of the grid was executed.",
+		rule: "the grid (built-in function discovered on a fresh global object, call or construct) x (one varying position among receiver / argument 1 / argument 2) x 71 value kinds (numeric extremes, hostile strings, wrappers, frozen/sealed/non-extensible/sparse/array-like/prototype-less objects, arguments, bound functions, regexps with negative lastIndex, Go-backed slices/maps/structs/arrays/functions, trap objects and trap functions whose valueOf/toString/toJSON/getters/body count invocations) x faults {none, throw at the 1st/2nd/3rd trap invocation, host-function panic, interrupt panic at the 1st/2nd trap invocation, stack depth limit 3..6} is enumerated completely (quick adds all kind pairs for a seed-selected sixteenth of the surface, thorough for all of it), plus: every own/inherited property of an instance of each kind read/described/written/deleted (also through an inheriting object); every operator form on each kind; uncaught throws and the Value/Object accessors on a value of each kind under every fault; all 3-step histories over 20 array/object operations; all 729 property-descriptor shapes applied to a property in each of the descriptor holders (state classes and exotic / Go-backed holders) and then observed from script, through the Go accessors and on a Copy(); all two-step histories of 11 operations x 9 keys on an arguments object for every declared/passed/strict shape; the Go API on hostile runtime states and host functions entered at rest; token-truncated special strings through every built-in; self-recursive programs under limits 2..200; JSON graphs cyclic only through a substituted value, 11 nesting kinds at 5000 levels, and allocation / unaccounted-recursion / deep-nesting probes (known findings) in memory-capped child processes; evaluations = cells executed. distinct_nontrivial = number of grid slices executed completely.",
 		assumptions: []string{
-			"claimed slice only: fault containment; totality on arbitrary source text and the plain input grid beyond these 16 kinds are outside deterministic simulation",
+			"claimed slice only: fault containment on a finite grid of value kinds, states and histories; totality on arbitrary source text and on values outside these kinds is outside deterministic simulation",
 			"nothing is asserted about which value or error comes back, only that the API call returns, that only injected panics escape, and that the runtime is at rest and usable afterwards",
 		},
 		real:      []string{"otto evaluator and every built-in, catchPanic, Interrupt polling, stack-depth guard"},
@@ -1015,7 +1015,7 @@ var checkConfigs = map[string]checkCfg{
 	},
 	"C04": {
 		prop: "C04", engine: "readerfault", level: "fault_enumeration", checksPerBatch: 6, minBatches: 16,
-		rule: "cases = generated program texts (workload generator, syntax zoo, interpreter fragments; <= 1500 bytes); for each text EVERY cut point n in [0,len] is delivered as a truncated stream through a simulated reader (1-byte / small / large / whole chunks, rune splits, (0,nil) reads, (n,EOF)) to parser.ParseFile and compared with parsing the same prefix as a string; run/compile/eval-level checks at statement boundaries and a sample of cuts; read errors after n bytes for every 4th n; whole-text chunkings through reader, []byte and *bytes.Buffer; the same prefix as a later file of a FileSet; a third of the texts carry a construct that is invalid by construction and must be rejected by every route; every accepted tree is checked for spans and ast.Walk. evaluations = simulated deliveries. distinct_nontrivial = distinct (accepted tree hash | rejection message) outcomes over cut points strictly inside a text.",
+		rule: "cases = generated program texts (workload generator, syntax zoo, interpreter fragments; <= 1500 bytes); for each text EVERY cut point n in [0,len] is delivered as a truncated stream through a simulated reader (1-byte / small / large / whole chunks, rune splits, (0,nil) reads, (n,EOF)) to parser.ParseFile and compared with parsing the same prefix as a string; run/compile/eval-level checks at statement boundaries and a sample of cuts; read errors after n bytes for every 4th n; whole-text chunkings through reader, []byte and *bytes.Buffer; the same prefix as a later file of a FileSet; a third of the texts carry a construct that is invalid by construction and must be rejected by every route, and once per run the whole corpus of invalid constructs (alone, embedded, as a suffix) and the whole syntax zoo (every item must be accepted, alone and embedded) are enumerated; every accepted tree is checked for spans, ast.Walk and the absence of Bad* placeholder nodes. evaluations = simulated deliveries. distinct_nontrivial = distinct (accepted tree hash | rejection message) outcomes over cut points strictly inside a text.",
 		assumptions: []string{
 			"claimed slice only: truncations of generated programs, any delivery of the bytes, read errors; 'arbitrary junk is rejected per the ES5 grammar' needs a grammar oracle and is outside deterministic simulation",
 			"oracles are differential against otto's own string route (no model of the grammar)",
